@@ -24,7 +24,10 @@ import (
 
 	"github.com/scionproto/scion/pkg/addr"
 
+	spathpkg "github.com/scionproto/scion/pkg/slayers/path"
+	"github.com/scionproto/scion/pkg/slayers/path/onehop"
 	"verif/internal/ev"
+
 	"verif/internal/netlab"
 	"verif/internal/vt"
 	"verif/internal/wire"
@@ -361,5 +364,70 @@ func TestPropListenerNoKernelTimestamps(t *testing.T) {
 			prev[si] = append(prev[si], rsp)
 			recNoTS.Eval(cites, ev.Hash(i, cites, si), nil)
 		}
+	})
+}
+
+// A request that is recorded but never answered (the reply could not be built or sent): no kernel transmit timestamp
+// exists for it, so "an exchange for which none could be read is dropped from the record rather than served". The
+// listener's record is read through the store hook (a real peer would have to guess the receive timestamp; the
+// statement quantifies over all request packets).
+var recNoReply = ev.New("c06/listener-unanswered-requests", "rapid: a SCION client identity sends a request the listener accepts but cannot answer (one-hop path whose second hop field is not filled in: the path cannot be reversed), then - from the same identity over the empty path - an interleaved-form request citing the receive timestamp the listener recorded for the unanswered one (read through the store hook), or a plain request. Oracle: the unanswered request gets no reply; the citing request is answered in basic mode (nothing may be served for an exchange that never had a transmit timestamp). One evaluation = one citing request. Non-trivial: a record of the unanswered exchange existed when read; distinct by identity")
+
+func TestPropUnansweredRequests(t *testing.T) {
+	hop, err := net.ListenUDP("udp", netlab.UDPAddr(netlab.Addr(3), 0))
+	if err != nil {
+		vt.Inconclusive(t, "bind: %v", err)
+	}
+	defer hop.Close()
+	var hostSeq uint32
+	vt.Check(t, 40, 400, func(t *rapid.T) {
+		hostSeq++
+		ia := addr.MustIAFrom(3, 0xff0000000333)
+		host := netip.AddrFrom4([4]byte{10, 3, byte(5 + hostSeq>>8), byte(hostSeq)})
+		clientID := fmt.Sprintf("%v,%v", ia, host)
+		seq++
+		var req ntp.Packet
+		req.SetVersion(4)
+		req.SetMode(ntp.ModeClient)
+		req.TransmitTime = ntp.Time64{Seconds: 0xa2000000 + seq, Fraction: seq * 7919}
+		b := make([]byte, 48)
+		ntp.EncodePacket(&b, &req)
+		oh := &onehop.Path{}
+		oh.Info = spathpkg.InfoField{ConsDir: true, SegID: uint16(seq), Timestamp: uint32(time.Now().Unix())}
+		oh.FirstHop = spathpkg.HopField{ExpTime: 63, ConsIngress: 0, ConsEgress: 5}
+		// SecondHop left unfilled, as a one-hop path looks before the second AS has processed it
+		raw, err := (&wire.Pkt{SrcIA: ia, DstIA: addr.MustIAFrom(9, 0xff0000000999), Src: host, Dst: netlab.Addr(6), Path: oh, SrcPort: 5123, DstPort: uint16(scionAddr.Port), Payload: b}).Serialize(nil, nil)
+		if err != nil {
+			t.Fatalf("harness: %v", err)
+		}
+		hop.WriteToUDP(raw, scionAddr)
+		buf := make([]byte, 4096)
+		hop.SetReadDeadline(time.Now().Add(150 * time.Millisecond))
+		if n, _, err := hop.ReadFromUDP(buf); err == nil {
+			if p, perr := wire.Parse(buf[:n]); perr == nil && p.IsUDP {
+				// answered after all (the listener found a way to reverse the path): nothing to check here
+				recNoReply.Label("request-answered")
+				return
+			}
+		}
+		it, had := server.LookupV(clientID)
+		cite := rapid.IntRange(0, 3).Draw(t, "cite") > 0
+		seq++
+		var req2 ntp.Packet
+		req2.SetVersion(4)
+		req2.SetMode(ntp.ModeClient)
+		req2.TransmitTime = ntp.Time64{Seconds: 0xa2000000 + seq, Fraction: seq * 7919}
+		if had && len(it.Pairs) > 0 && cite {
+			req2.OriginTime = it.Pairs[len(it.Pairs)-1].Rx
+			req2.ReceiveTime = ntp.Time64{Seconds: 0xb2000000 + seq, Fraction: seq}
+		}
+		r, err := exchangeSCION(hop, ia, host, req2)
+		if err != nil {
+			t.Fatalf("a well-formed request after the unanswered one was not answered: %v", err)
+		}
+		if r.rsp.OriginTime != req2.TransmitTime {
+			t.Fatalf("a request citing the receive timestamp of an exchange that was never answered (no transmit timestamp was ever read for it) was served in interleaved mode with transmit timestamp %v: the exchange was left on record", r.rsp.TransmitTime)
+		}
+		recNoReply.Eval(had && len(it.Pairs) > 0, ev.Hash(clientID), nil)
 	})
 }
